@@ -392,7 +392,17 @@ func (sc *scenario) genStream(r *rand.Rand, idx int) stream {
 		st.Variant = fmt.Sprintf("name=%d %s %s", k, pl, posName[pos])
 		st.Bytes = asm(true, place(reg(names[k], data), pos), true)
 	case "absolute":
-		tmpl := r.Intn(7)
+		// the seven templates are walked in a fixed order (this class occupies
+		// two consecutive slots of the round-robin), so that every run sends
+		// the absolute path of a new file inside the sandbox
+		slot := 0
+		for i, cn := range classes {
+			if cn == "absolute" {
+				slot = idx%len(classes) - i
+				break
+			}
+		}
+		tmpl := []int{3, 0, 1, 4, 6, 2, 5}[((idx/len(classes))*2+slot)%7]
 		var name string
 		switch tmpl {
 		case 6:
